@@ -26,7 +26,7 @@ def run(ctx):
     ctx.proof("DispatchVerif.Props.C01", THEOREMS)
     ctx.assumptions += ["weak fairness of enabled threads; the root queue eventually services its tokens", "sequentially consistent interleaving model of the atomic operations",
                         "pthread_create succeeds; the workqueue monitor classifies blocked threads correctly (observed by the pool scenario)"]
-    cfg = [(2, 600, 1), (4, 400, 0), (8, 300, 0), (12, 200, 0), (6, 300, 0, 1), (10, 200, 0, 1), (4, 500, 0, 0, 2), (4, 500, 0, 0, 5)] if not ctx.thorough else [(2, 5000, 1), (2, 5000, 0), (4, 3000, 0), (8, 2500, 0), (12, 2000, 0), (16, 1500, 0), (3, 3000, 1), (6, 3000, 0, 1), (12, 1500, 0, 1), (4, 5000, 0, 0, 2), (4, 5000, 0, 0, 3), (4, 5000, 0, 0, 16)]
+    cfg = [(2, 600, 1), (4, 400, 0), (8, 300, 0), (12, 200, 0), (6, 300, 0, 1), (10, 200, 0, 1), (6, 300, 0, 2), (4, 500, 0, 0, 2), (4, 500, 0, 0, 5)] if not ctx.thorough else [(2, 5000, 1), (2, 5000, 0), (4, 3000, 0), (8, 2500, 0), (12, 2000, 0), (16, 1500, 0), (3, 3000, 1), (6, 3000, 0, 1), (12, 1500, 0, 1), (8, 2000, 0, 2), (4, 5000, 0, 0, 2), (4, 5000, 0, 0, 3), (4, 5000, 0, 0, 16)]
     run_lane(ctx, cfg, what="c01")
     # the dq_state word functions against their word-level models (DqW), on generated words
     drv = ctx.driver()
